@@ -4,7 +4,7 @@
 //! evaluated while the run proceeds.
 use crate::rng::mix;
 use crate::sched::{Sched, SchedStats, Source};
-use crate::snap::{build_root, build_value, rebuild_from_snap, snap, BuiltRoot, Outcome, Snap};
+use crate::snap::{build_root, build_value, digest_obs, first_difference, observe, rebuild_from_snap, snap, BuiltRoot, Outcome, Snap};
 use crate::tls::{self, OracleGuard, Probes};
 use crate::workload::*;
 use cel_interpreter::{Context, Program, Value};
@@ -20,6 +20,9 @@ pub const MAX_RETAINED: usize = 8;
 pub const NAME_POOL: &[&str] = &[
     "l", "l2", "ls", "ll", "s", "t", "m", "mi", "mm", "i", "n", "b", "by", "x", "k", "size", "u", "d", "e", "v", "dur", "ts", "zz",
 ];
+
+/// programs the parser of the tree under test rejected (process-wide count)
+pub static REJECTED: std::sync::atomic::AtomicU64 = std::sync::atomic::AtomicU64::new(0);
 
 pub struct Compiled {
     pub programs: Vec<Program>,
@@ -45,9 +48,17 @@ pub fn compile_all(w: &Workload, use_ast: bool) -> Result<Compiled, String> {
                 None => return Err(format!("program {} has no imported AST", i)),
             }
         } else {
-            match Program::compile(&p.src) {
-                Ok(p) => p,
-                Err(e) => return Err(format!("generator bug: program {} `{}` does not compile: {}", i, p.src, e)),
+            // C05 says nothing about compiling: a source the tree under test rejects (or panics on) is
+            // replaced by a constant and counted, never reported
+            match catch_unwind(AssertUnwindSafe(|| Program::compile(&p.src))) {
+                Ok(Ok(p)) => p,
+                _ => {
+                    REJECTED.fetch_add(1, Ordering::Relaxed);
+                    match Program::compile("null") {
+                        Ok(p) => p,
+                        Err(e) => return Err(format!("the tree under test cannot even compile `null`: {}", e)),
+                    }
+                }
             }
         };
         programs.push(prog);
@@ -61,6 +72,8 @@ pub struct OpRecord {
     pub outcome: Option<Outcome>,
     pub fail_at: u32,
     pub steps: u64,
+    /// digest of what the thread could see from its innermost scope after this op (0 = not taken)
+    pub obs_digest: u64,
 }
 
 #[derive(Clone, Debug, Default)]
@@ -193,8 +206,10 @@ struct Runner<'a, 'w> {
     ops: &'w [Op],
     /// own scopes, innermost last; index 0 is the base scope every thread opens over the root
     model: Vec<BTreeMap<String, Binding>>,
-    root_expect: &'a BTreeMap<String, Snap>,
-    private_expect: Option<&'a BTreeMap<String, Snap>>,
+    root_expect: &'a [Outcome],
+    private_expect: Option<&'a [Outcome]>,
+    /// observation of the innermost scope after the previous op, if no defining op happened since
+    last_obs: Option<Vec<Outcome>>,
     retained_snaps: Vec<Snap>,
     /// Solo/Sequential: being written; Concurrent: reference to compare with
     records: Vec<OpRecord>,
@@ -218,15 +233,6 @@ impl<'a, 'w> Runner<'a, 'w> {
         });
     }
 
-    fn lookup_model(&self, name: &str) -> Option<&Snap> {
-        for scope in self.model.iter().rev() {
-            if let Some(b) = scope.get(name) {
-                return Some(&b.snap);
-            }
-        }
-        self.root_expect.get(name)
-    }
-
     /// I2 + I4 (+ I3 when `full`).
     fn check_invariants(&mut self, root: &Context, private: Option<&Context>, cur: &Context, op_index: usize, full: bool) {
         if self.sh.stopped() {
@@ -234,70 +240,64 @@ impl<'a, 'w> Runner<'a, 'w> {
         }
         let _g = OracleGuard::enter();
         self.stats.invariant_checks += 1;
-        // I2: the shared root still holds exactly what the recipe put there
-        for name in NAME_POOL {
-            let got = root.get_variable(*name);
-            let exp = self.root_expect.get(*name);
-            let ok = match (&got, exp) {
-                (Ok(v), Some(e)) => &snap(v) == e,
-                (Err(cel_interpreter::ExecutionError::UndeclaredReference(_)), None) => true,
-                _ => false,
-            };
-            if !ok {
-                let g = Outcome::of(&got).show();
-                self.violate(
-                    "I2-root",
-                    op_index,
-                    exp.map(|e| e.show()).unwrap_or_else(|| "<undeclared>".into()),
-                    g,
-                    format!("root variable `{}` differs from the value the context was built with", name),
-                );
+        // I2-root: the shared root still answers every lookup as it did right after it was built
+        let robs = observe(root);
+        if let Some(i) = first_difference(&robs, self.root_expect) {
+            let (e, g) = (self.root_expect[i].show(), robs[i].show());
+            self.violate("I2-root", op_index, e, g, format!("root variable `{}` no longer reads as it did when the context was built", NAME_POOL[i]));
+            return;
+        }
+        if let (Some(p), Some(pe)) = (private, self.private_expect) {
+            let pobs = observe(p);
+            if let Some(i) = first_difference(&pobs, pe) {
+                let (e, g) = (pe[i].show(), pobs[i].show());
+                self.violate("I2-private-root", op_index, e, g, format!("private root variable `{}` changed", NAME_POOL[i]));
                 return;
             }
         }
-        // I2: bindings visible from the innermost own scope
-        for name in NAME_POOL {
-            let got = cur.get_variable(*name);
-            let exp = self.lookup_model(name).cloned();
-            let ok = match (&got, &exp) {
-                (Ok(v), Some(e)) => &snap(v) == e,
-                (Err(cel_interpreter::ExecutionError::UndeclaredReference(_)), None) => true,
-                _ => false,
-            };
-            if !ok {
-                let g = Outcome::of(&got).show();
+        // I2-scope: what is visible from the innermost own scope did not change across operations
+        // that must not change it (executions, host-side +, lookups, retention)
+        let obs = observe(cur);
+        if let Some(prev) = &self.last_obs {
+            if let Some(i) = first_difference(&obs, prev) {
+                let (e, g) = (prev[i].show(), obs[i].show());
                 self.violate(
                     "I2-scope",
                     op_index,
-                    exp.map(|e| e.show()).unwrap_or_else(|| "<undeclared>".into()),
+                    e,
                     g,
-                    format!("lookup of `{}` from the innermost scope (depth {}) disagrees with the scope model", name, self.model.len() - 1),
+                    format!("lookup of `{}` from the innermost own scope (depth {}) changed although no scope operation happened in between", NAME_POOL[i], self.model.len() - 1),
                 );
                 return;
             }
         }
-        if let (Some(p), Some(pe)) = (private, self.private_expect) {
-            for name in NAME_POOL {
-                let got = p.get_variable(*name);
-                let exp = pe.get(*name);
-                let ok = match (&got, exp) {
-                    (Ok(v), Some(e)) => &snap(v) == e,
-                    (Err(cel_interpreter::ExecutionError::UndeclaredReference(_)), None) => true,
-                    _ => false,
-                };
-                if !ok {
-                    let g = Outcome::of(&got).show();
-                    self.violate(
-                        "I2-private-root",
-                        op_index,
-                        exp.map(|e| e.show()).unwrap_or_else(|| "<undeclared>".into()),
-                        g,
-                        format!("private root variable `{}` changed", name),
-                    );
-                    return;
+        let od = digest_obs(&obs);
+        match self.phase {
+            Phase::Concurrent => {
+                if let Some(r) = self.reference {
+                    if let Some(rec) = r.get(op_index) {
+                        if rec.obs_digest != 0 && rec.obs_digest != od && !full {
+                            self.violate(
+                                "I2-scope-vs-alone",
+                                op_index,
+                                format!("digest {:016x}", rec.obs_digest),
+                                format!("digest {:016x}", od),
+                                "after this operation the thread sees different bindings from its innermost scope than it saw at the same point when it ran alone".to_string(),
+                            );
+                            return;
+                        }
+                    }
+                }
+            }
+            _ => {
+                if !full {
+                    if let Some(rec) = self.records.get_mut(op_index) {
+                        rec.obs_digest = od;
+                    }
                 }
             }
         }
+        self.last_obs = Some(obs);
         // I2 (values held by the model's bindings are the very values bound: they must not change either)
         for (d, scope) in self.model.iter().enumerate() {
             for (name, b) in scope {
@@ -428,6 +428,7 @@ impl<'a, 'w> Runner<'a, 'w> {
                     outcome: Some(outcome.clone()),
                     fail_at,
                     steps,
+                    obs_digest: 0,
                 };
             }
         }
@@ -513,11 +514,13 @@ impl<'a, 'w> Runner<'a, 'w> {
                     if depth < MAX_SCOPE_DEPTH {
                         self.stats.scope_opens += 1;
                         self.model.push(BTreeMap::new());
+                        self.last_obs = None;
                         {
                             let mut child = cur.new_inner_scope();
                             self.run_scope(root, private, &mut child, pos, depth + 1);
                         }
                         self.model.pop();
+                        self.last_obs = None;
                         if self.sh.w.knobs.check_every_op {
                             self.check_invariants(root, private, cur, idx, false);
                         }
@@ -530,6 +533,7 @@ impl<'a, 'w> Runner<'a, 'w> {
                     }
                 }
                 Op::Define { name, src } => {
+                    self.last_obs = None;
                     let v = self.resolve_src(src, root);
                     if matches!(src, ValSrc::Retained(_)) {
                         self.stats.retained_alias_defines += 1;
@@ -626,16 +630,14 @@ impl<'a, 'w> Runner<'a, 'w> {
                     }
                 }
                 Op::Lookup(name) => {
-                    let exp = self.lookup_model(name).cloned();
-                    let got = cur.get_variable(name.as_str());
-                    let ok = match (&got, &exp) {
-                        (Ok(v), Some(e)) => &snap(v) == e,
-                        (Err(cel_interpreter::ExecutionError::UndeclaredReference(_)), None) => true,
-                        _ => false,
-                    };
-                    if !ok {
-                        let g = Outcome::of(&got).show();
-                        self.violate("I2-scope", idx, exp.map(|e| e.show()).unwrap_or_else(|| "<undeclared>".into()), g, format!("host lookup of `{}` at scope depth {}", name, depth));
+                    // a host-side lookup (with its scheduling points); compared with what the same
+                    // lookup gave at the last observation, if nothing was defined since
+                    let got = Outcome::of(&cur.get_variable(name.as_str()));
+                    if let (Some(prev), Some(i)) = (&self.last_obs, NAME_POOL.iter().position(|n| n == name)) {
+                        if prev[i] != got {
+                            let e = prev[i].show();
+                            self.violate("I2-scope", idx, e, got.show(), format!("host lookup of `{}` at scope depth {} changed although no scope operation happened", name, depth));
+                        }
                     }
                 }
                 Op::Checkpoint => {
@@ -667,13 +669,30 @@ impl<'a, 'w> Runner<'a, 'w> {
         if w.knobs.twin_same {
             let mut got: Option<Outcome> = None;
             // a different buggify pattern on the twin: the result must not depend on which append path ran
+            let mut twin_obs: Option<Vec<Outcome>> = None;
             self.with_twin(false, target, &mut |tw| {
+                {
+                    let _g = OracleGuard::enter();
+                    twin_obs = Some(observe(tw));
+                }
                 tls::begin_exec(key ^ 0x5bd1_e995, fail_at);
                 got = Some(execute(program, tw));
                 let _ = tls::end_exec();
             });
             self.stats.twin_same_compared += 1;
             let got = got.unwrap();
+            // the long-lived context and a freshly built equal one answer lookups alike
+            let here = {
+                let _g = OracleGuard::enter();
+                observe(ctx)
+            };
+            if let Some(t) = &twin_obs {
+                if let Some(i) = first_difference(&here, t) {
+                    let d = format!("lookup of `{}`: the long-lived context of this history answers differently from a freshly built context with the same bindings", NAME_POOL[i]);
+                    self.violate("I2-twin", idx, t[i].show(), here[i].show(), d);
+                    return;
+                }
+            }
             if &got != outcome {
                 let d = format!("{}: a freshly built, equal context (same hash order) gives a different result than the long-lived context of this history", self.describe_op(idx));
                 self.violate("I5a-twin", idx, got.show(), outcome.show(), d);
@@ -717,7 +736,7 @@ fn run_thread<'a, 'w>(
     tid: usize,
     phase: Phase,
     root: &Context,
-    root_expect: &'a BTreeMap<String, Snap>,
+    root_expect: &'a [Outcome],
     reference: Option<&'a [OpRecord]>,
     sched: Option<Arc<Sched>>,
     enabled_sites: u32,
@@ -742,7 +761,8 @@ fn run_thread<'a, 'w>(
             ops: &plan.ops,
             model: vec![BTreeMap::new()],
             root_expect,
-            private_expect: private.as_ref().map(|p| &p.expect),
+            private_expect: private.as_ref().map(|p| p.expect.as_slice()),
+            last_obs: None,
             retained_snaps: Vec::new(),
             records: if phase == Phase::Concurrent {
                 Vec::new()
@@ -751,7 +771,8 @@ fn run_thread<'a, 'w>(
                     OpRecord {
                         outcome: None,
                         fail_at: 0,
-                        steps: 0
+                        steps: 0,
+                        obs_digest: 0
                     };
                     n_ops
                 ]
@@ -956,6 +977,8 @@ pub fn run_workload(w: &Workload, opts: &RunOptions) -> RunResult {
                 };
                 Some(Arc::new(Sched::new(n, source, max_decisions)))
             };
+            #[cfg(all(target_os = "linux", target_arch = "x86_64", not(miri)))]
+            crate::sched::publish_active(sched.as_ref());
             let barrier = std::sync::Barrier::new(n);
             let outs: Vec<ThreadOutput> = std::thread::scope(|s| {
                 let mut handles = Vec::with_capacity(n);
@@ -979,6 +1002,8 @@ pub fn run_workload(w: &Workload, opts: &RunOptions) -> RunResult {
                 }
                 handles.into_iter().map(|h| h.join().expect("simulated thread")).collect()
             });
+            #[cfg(all(target_os = "linux", target_arch = "x86_64", not(miri)))]
+            crate::sched::publish_active(None);
             for o in &outs {
                 merge(&mut stats, &o.stats);
                 stats.probes.add(&o.probes);
@@ -1063,25 +1088,16 @@ fn final_root_check(sh: &Shared, root: &BuiltRoot, phase: &str) {
     if sh.stopped() {
         return;
     }
-    for name in NAME_POOL {
-        let got = root.ctx.get_variable(*name);
-        let exp = root.expect.get(*name);
-        let ok = match (&got, exp) {
-            (Ok(v), Some(e)) => &snap(v) == e,
-            (Err(cel_interpreter::ExecutionError::UndeclaredReference(_)), None) => true,
-            _ => false,
-        };
-        if !ok {
-            sh.report(ViolationInfo {
-                invariant: "I2-root".into(),
-                phase: phase.into(),
-                thread: 0,
-                op_index: 0,
-                expected: exp.map(|e| e.show()).unwrap_or_else(|| "<undeclared>".into()),
-                got: Outcome::of(&got).show(),
-                detail: format!("after the phase, root variable `{}` differs from what the context was built with", name),
-            });
-            return;
-        }
+    let obs = observe(&root.ctx);
+    if let Some(i) = first_difference(&obs, &root.expect) {
+        sh.report(ViolationInfo {
+            invariant: "I2-root".into(),
+            phase: phase.into(),
+            thread: 0,
+            op_index: 0,
+            expected: root.expect[i].show(),
+            got: obs[i].show(),
+            detail: format!("after the phase, root variable `{}` no longer reads as it did when the context was built", NAME_POOL[i]),
+        });
     }
 }
